@@ -115,6 +115,7 @@ type caseSpec struct {
 	Zone     int // seconds east of UTC for the other-zone node
 	Clocks   []int64
 	Reset    *resetSpec // chain-reset scenario (nil: not run)
+	Mempool  *mempoolSpec // gossiped, un-mined transactions scenario (nil: not run)
 
 	byAddr map[common.Address]int
 }
@@ -165,6 +166,9 @@ func (s *caseSpec) describe() string {
 	fmt.Fprintf(&b, "  order1=%v split1=%v order2=%v split2=%v restartAfterBlocks=%d zone=%+ds\n", s.Order1, s.Split1, s.Order2, s.Split2, s.RestartK, s.Zone)
 	if s.Reset != nil {
 		fmt.Fprintf(&b, "  reset scenario: %s\n", s.Reset)
+	}
+	if s.Mempool != nil {
+		fmt.Fprintf(&b, "  gossip scenario: %s\n", s.Mempool)
 	}
 	return b.String()
 }
